@@ -75,3 +75,21 @@ def call(fn, *a, **k):
         raise
     except Exception as e:
         return "exc", e
+
+
+# ----------------------------------------------------------------------------- batch entries
+# The properties say that a failing game's entry "carries the error message" and that its unpruned entry "is
+# marked not solved"; they do not fix the wording.  So: an entry is SOLVED iff it carries results; a failing entry
+# carries no results and a message that contains the solver's error text.
+def entry_solved(e):
+    return isinstance(e, dict) and e.get("rewards") is not None and e.get("probabilities") is not None
+
+
+def entry_failed_with(e, error_text=None):
+    if not isinstance(e, dict) or entry_solved(e) or not isinstance(e.get("msg"), str) or not e["msg"].strip():
+        return False
+    return error_text is None or error_text.lower() in e["msg"].lower()
+
+
+def entry_not_solved(e):
+    return isinstance(e, dict) and not entry_solved(e) and isinstance(e.get("msg"), str)
